@@ -1,9 +1,105 @@
-import TrionModel.Lemmas.LexPos
+import TrionModel.Lemmas.LexLit
 /-!
 # C11 — literals denote exactly the written value
+
+`radixPrefix r` is what selects radix `r` (nothing, `0b`, `0o`, `0x` — lower case only, as in the code);
+`isDigit r b` is `char::is_digit(r)` of the byte (decimal digits and letters of either case below `r`);
+`valueFrom r ds 0` is positional notation: `ds.foldl (fun a b => a * r + digit b) 0`.
+Quantifying over all digit strings `ds` covers every digit case and any number of leading zeros.
 -/
 namespace Trion.Lex
 
-example : tokens (bytesOf "0x1F") = .ok ⟨[⟨1, 1, .num 31⟩], none, 1, 5⟩ := by decide
+/-- what the tokenizer yields for a digit string after a radix prefix: one number token when
+`i64::from_str_radix` accepts the digits, otherwise the single error `BadNumber` at 1:1 -/
+theorem number_tokens (r : Nat) (hr : r = 2 ∨ r = 8 ∨ r = 10 ∨ r = 16) (ds : Bytes)
+    (hds : ∀ b ∈ ds, isDigit r b = true) (hne : r = 10 → ds ≠ []) :
+    tokens (radixPrefix r ++ ds) = match i64FromStrRadix ds r with
+      | some v => .ok ⟨[⟨1, 1, .num v⟩], none, 1, 1 + (radixPrefix r ++ ds).length⟩
+      | none => .ok ⟨[], some ⟨1, 1, .badNumber⟩, 1, 1⟩ := by
+  have hpfx : ∀ b ∈ radixPrefix r, b.toNat < 128 := by
+    intro b hb
+    rcases hr with rfl | rfl | rfl | rfl <;> simp [radixPrefix] at hb
+    all_goals (rcases hb with rfl | rfl <;> decide)
+  have hascii : ∀ b ∈ radixPrefix r ++ ds, b.toNat < 128 := by
+    intro b hb
+    simp at hb
+    rcases hb with hb | hb
+    · exact hpfx b hb
+    · exact (isDigit_ascii (hds b hb)).1
+  -- the text starts with a decimal digit
+  obtain ⟨b0, tl, hd, h0⟩ : ∃ b0 tl, radixPrefix r ++ ds = b0 :: tl ∧ 48 ≤ b0.toNat ∧ b0.toNat ≤ 57 := by
+    rcases hr with rfl | rfl | rfl | rfl
+    · exact ⟨48, 98 :: ds, by simp [radixPrefix], by decide⟩
+    · exact ⟨48, 111 :: ds, by simp [radixPrefix], by decide⟩
+    · cases ds with
+      | nil => exact absurd rfl (hne rfl)
+      | cons a ds' => exact ⟨a, ds', by simp [radixPrefix], isDigit10_range (hds a (by simp))⟩
+    · exact ⟨48, 120 :: ds, by simp [radixPrefix], by decide⟩
+  have hdet := prefix_detect r hr ds [] hds hne (by intro _ b hb; simp at hb)
+  simp only [List.append_nil] at hdet
+  unfold tokens
+  rw [new_ascii _ hascii]
+  have hlex := lexNumber_exact ⟨radixPrefix r ++ ds, false, 1, 1⟩ (radixPrefix r) ds [] r (by simp)
+    (by simpa using hdet.1) (by simpa using hdet.2) hds
+    (by intro b hb
+        cases ds with
+        | nil => simp at hb
+        | cons a ds' => simp at hb; subst hb; exact isDigit_noncont (hds _ (by simp)))
+    (Or.inl ⟨rfl, rfl⟩)
+  have hnext := nextToken_number ⟨radixPrefix r ++ ds, false, 1, 1⟩ b0 tl hd h0
+  rw [hlex] at hnext
+  rw [show (radixPrefix r ++ ds).length + 2 = ((radixPrefix r ++ ds).length + 1) + 1 by omega, run, hnext]
+  cases i64FromStrRadix ds r with
+  | none => simp [fail, State.clear]
+  | some v =>
+    simp only
+    rw [run, nextToken_ended]
+    simp [Out.push]
+
+theorem i64FromStrRadix_eq (r : Nat) (hr : 1 ≤ r) (ds : Bytes) (hne : ds ≠ []) (hds : ∀ b ∈ ds, isDigit r b = true) :
+    i64FromStrRadix ds r =
+      if valueFrom r ds 0 < 2 ^ 63 then some (Int.ofNat (valueFrom r ds 0)) else none := by
+  cases ds with
+  | nil => exact absurd rfl hne
+  | cons a ds' =>
+    simp only [i64FromStrRadix]
+    rw [parseDigits_eq r _ hr _ 0 hds (by omega)]
+    by_cases h : valueFrom r (a :: ds') 0 < 2 ^ 63
+    · have : valueFrom r (a :: ds') 0 ≤ 9223372036854775807 := by omega
+      simp [h, this]
+    · have : ¬ valueFrom r (a :: ds') 0 ≤ 9223372036854775807 := by omega
+      simp [h, this]
+
+/-- C11.a `int_lit`  Every integer literal below 2^63 — radix 2, 8, 10 or 16, digits in either letter
+case, any number of leading zeros — yields exactly one number token carrying the value written, at 1:1,
+and the stream ends without error at the column after the literal. -/
+theorem int_lit (r : Nat) (hr : r = 2 ∨ r = 8 ∨ r = 10 ∨ r = 16) (ds : Bytes) (hne : ds ≠ [])
+    (hds : ∀ b ∈ ds, isDigit r b = true) (hv : valueFrom r ds 0 < 2 ^ 63) :
+    tokens (radixPrefix r ++ ds) =
+      .ok ⟨[⟨1, 1, .num (Int.ofNat (valueFrom r ds 0))⟩], none, 1, 1 + (radixPrefix r ++ ds).length⟩ := by
+  rw [number_tokens r hr ds hds (fun _ => hne), i64FromStrRadix_eq r (by omega) ds hne hds]
+  simp [hv]
+
+/-- C11.b `int_big`  A literal of 2^63 or more is rejected with `BadNumber`, never wrapped. -/
+theorem int_big (r : Nat) (hr : r = 2 ∨ r = 8 ∨ r = 10 ∨ r = 16) (ds : Bytes) (hne : ds ≠ [])
+    (hds : ∀ b ∈ ds, isDigit r b = true) (hv : 2 ^ 63 ≤ valueFrom r ds 0) :
+    tokens (radixPrefix r ++ ds) = .ok ⟨[], some ⟨1, 1, .badNumber⟩, 1, 1⟩ := by
+  rw [number_tokens r hr ds hds (fun _ => hne), i64FromStrRadix_eq r (by omega) ds hne hds]
+  have : ¬ valueFrom r ds 0 < 2 ^ 63 := by omega
+  simp [this]
+
+/-- C11.c `lit_reject` (prefix without digits)  `0b`, `0o`, `0x` alone are rejected with `BadNumber`. -/
+theorem bare_prefix_reject (r : Nat) (hr : r = 2 ∨ r = 8 ∨ r = 16) :
+    tokens (radixPrefix r) = .ok ⟨[], some ⟨1, 1, .badNumber⟩, 1, 1⟩ := by
+  have := number_tokens r (by omega) [] (by simp) (by omega)
+  simpa [i64FromStrRadix] using this
+
+-- non-vacuity: digit strings with these properties exist in every radix, both cases, leading zeros
+example : isDigit 16 70 = true ∧ isDigit 16 102 = true ∧ isDigit 8 56 = false ∧ isDigit 2 49 = true := by decide
+example : valueFrom 16 (bytesOf "00fF") 0 = 255 := by decide
+example : tokens (bytesOf "0x00fF") = .ok ⟨[⟨1, 1, .num 255⟩], none, 1, 7⟩ := by decide
+example : tokens (bytesOf "9223372036854775807") = .ok ⟨[⟨1, 1, .num 9223372036854775807⟩], none, 1, 20⟩ := by decide
+example : tokens (bytesOf "9223372036854775808") = .ok ⟨[], some ⟨1, 1, .badNumber⟩, 1, 1⟩ := by decide
+example : tokens (bytesOf "0x") = .ok ⟨[], some ⟨1, 1, .badNumber⟩, 1, 1⟩ := by decide
 
 end Trion.Lex
